@@ -622,6 +622,32 @@ func (sc *scenario) craft(in *injSpec) (data, orig []byte, intact bool) {
 		return craftShort(k, r, 20+r.Intn(60)), nil, false
 	case "tiny":
 		return craftShort(k, r, r.Intn(12)), nil, false
+	case "tinylong":
+		typ := protocol.PacketTypeInitial
+		if g("typ", "initial") == "handshake" {
+			typ = protocol.PacketTypeHandshake
+		}
+		return craftTinyLong(k, r, typ), nil, false
+	case "coalesce":
+		// two forged long-header packets in one datagram; the second one addressed to the same or to another ID
+		var first []byte
+		switch g("first", "initial") {
+		case "badver":
+			first = craftLong(k, r, protocol.PacketTypeInitial, "right", "garbage", "ping", "other")
+		case "handshake":
+			first = craftLong(k, r, protocol.PacketTypeHandshake, "right", "garbage", "ping", "cur")
+		default:
+			first = craftLong(k, r, protocol.PacketTypeInitial, g("scid", "right"), g("keys", "garbage"), "ping", "cur")
+		}
+		k2 := k
+		if g("second", "same") == "other" {
+			k2.cSCID = randCID(r, 5+r.Intn(8))
+		}
+		second := craftLong(k2, r, protocol.PacketTypeHandshake, "right", "garbage", "ping", "cur")
+		if g("tail", "long") == "short" {
+			second = craftShort(k2, r, 30+r.Intn(30))
+		}
+		return append(first, second...), nil, false
 	case "replay":
 		o := pick()
 		if o == nil {
@@ -639,6 +665,21 @@ func (sc *scenario) craft(in *injSpec) (data, orig []byte, intact bool) {
 }
 
 func (sc *scenario) inject(in *injSpec) {
+	if in.kind == "flood" {
+		// enough undecryptable packets to fill the queue of MaxUndecryptablePackets
+		n := int(vh.Atoi64(in.p["n"]))
+		what := in.p["what"]
+		for i := 0; i < n; i++ {
+			one := *in
+			one.kind = what
+			one.seed = in.seed + uint64(i)*7919
+			data, _, _ := sc.craft(&one)
+			if len(data) > 0 {
+				sc.deliver(fmt.Sprintf("i%d:flood", in.id), data, nil, false)
+			}
+		}
+		return
+	}
 	data, orig, intact := sc.craft(in)
 	if len(data) == 0 {
 		return
